@@ -148,6 +148,24 @@ CHECKS = {
              "arguments observed at every handler; unsupported node types must raise.",
         note="Trusted: the child table (vf/checks/c09.py expr_children), the restated "
              "resolution order, the independent CamelCase converter."),
+    "C15": dict(
+        category="exploration", design="DESIGN.md 4/C15",
+        technique="bounded-exhaustive enumeration of expression trees x target sets and of small "
+                  "integer affine systems x writing forms x unknown orders x hash seeds, checked "
+                  "against exact rational-function and Fraction oracles",
+        text="Every tree of depth <= 3 over x y z a[0] f(x) 2 -1 3 with Sum/Product/Quotient/Power "
+             "(plus 3-ary nestings), under target_names None and all 16 subsets of {x,y,z,a}, is "
+             "run through CoefficientCollector: a returned dict must have target keys, target-free "
+             "coefficients and satisfy the reconstruction identity exactly (RatFun); syntactically "
+             "affine input must return; input with a non-zero second finite difference must "
+             "raise. Every integer system up to 3x3 (square, over- and under-determined; right-hand "
+             "sides with parameters) in 5 equivalent lhs/rhs forms and all unknown orders, under 3 "
+             "(quick) / 8 (thorough) hash seeds, is solved and compared with exact Fraction "
+             "elimination: whatever is accepted must be uniquely and integrally solvable and "
+             "satisfy every equation identically in the parameters.",
+        note="Trusted: vf.exact Poly/RatFun, vf.spec.to_spec, the Fraction reference solver "
+             "(self-checked on every system). Composite leaves are opaque atoms; acceptance of "
+             "solvable systems is counted, not demanded."),
 }
 
 NOT_BUILT_REASON = "check not built yet in this revision (planned, see DESIGN.md section 4)"
